@@ -1,4 +1,5 @@
 import Momtrop.Proofs.Components
+import Momtrop.Proofs.LoopNumber
 import Momtrop.Model.Table
 /-!
 # C03 — the subgraph table holds loop number, spanning flag and degree of divergence
@@ -79,5 +80,35 @@ theorem component_search_exact (top : List (TEdge α)) (s : List Nat) (hs : s.No
 theorem first_component (top : List (TEdge α)) (e : Nat) (es : List Nat) (hs : (e :: es).Nodup) :
     (componentLists top (e :: es)).head? = some (closure top (e :: es) ((e :: es).length + 1) [e]) := by
   simp [componentLists, compsLoop]
+
+/-- **Connected components are exactly the connectivity classes.** For a duplicate-free edge list `s`:
+every returned component is the full class (under "chain of edges sharing end points inside `s`") of one
+of its edges, different components are disjoint, every edge of `s` lies in one. -/
+theorem components_are_classes (top : List (TEdge α)) (s : List Nat) (hs : s.Nodup) :
+    (∀ c ∈ componentLists top s, ∃ seed ∈ s, ∀ f, f ∈ c ↔ EdgeConn top s seed f) ∧
+    List.Pairwise (fun c1 c2 : List Nat => ∀ e, e ∈ c1 → e ∉ c2) (componentLists top s) ∧
+    (∀ e ∈ s, ∃ c ∈ componentLists top s, e ∈ c) :=
+  componentLists_spec top s hs
+
+/-- two edges of `s` are in the same component iff they are connected inside `s` -/
+theorem same_component_iff (top : List (TEdge α)) (s : List Nat) (hs : s.Nodup) (e f : Nat) (he : e ∈ s) :
+    (∃ c ∈ componentLists top s, e ∈ c ∧ f ∈ c) ↔ EdgeConn top s e f :=
+  Momtrop.same_component_iff top s hs e f he
+
+/-- the returned `TropicalSubGraphId`s have exactly the bits of the component's edges -/
+theorem component_mask_bits (c : List Nat) (e : Nat) : Mask.hasEdge (Mask.ofList c) e = decide (e ∈ c) :=
+  Mask.hasEdge_ofList c e
+
+/-- **Loop number = cyclomatic number**: `loops + (touched vertices) = edges + components`, for every
+duplicate-free list of valid edge ids — self-loops, parallel edges and disconnected subsets included. -/
+theorem loopNumber_is_cyclomatic (top : List (TEdge α)) (s : List Nat) (hs : s.Nodup)
+    (hvalid : ∀ e ∈ s, e < top.length) :
+    loopNumber top s + (verts top s).card = s.length + (componentLists top s).length :=
+  loopNumber_cyclomatic top s hs hvalid
+
+/-- the edge list of a subset id is duplicate-free and valid, so the theorems above apply to every table entry -/
+theorem subset_edges_ok (top : List (TEdge α)) (i : Mask) :
+    (Mask.edges top.length i).Nodup ∧ ∀ e ∈ Mask.edges top.length i, e < top.length :=
+  ⟨Mask.edges_nodup _ _, fun _ he => (Mask.mem_edges.mp he).1⟩
 
 end Momtrop.C03
